@@ -35,7 +35,8 @@ from lib.core import zlit, coq_list
 PREAMBLE = "From Typhon Require Import Base.Calendar Model.C03_tree Model.C01_find.\n"
 TRUSTED = [
     "correspondence harness tools/props/c01.py (template grammar, own renderer of paths, datetime -> microseconds, "
-    "canonical comparison of id sequences up to ties of (t0, t1))",
+    "canonical comparison of id sequences: order by (t0, t1) against Coq, order among equal (t0, t1) against the "
+    "unsorted stream of the same FileSet)",
     "Python re on the anchored regex generated from the template (deterministic class of C02: fixed-width digits, "
     "alphabetic placeholder values separated by delimiters), glob order, os / fsspec directory listing",
     "pandas Grouper(freq=w) is modelled as the bins [o + k w, o + (k+1) w), o = midnight of the first start time "
@@ -962,6 +963,9 @@ def coqchk_own_collect(ctx, started, until_s=420):
     ctx.obligations.append((name, not bad, {"wall_s": round(time.time() - t0, 1),
                                             "axioms_of_all_loaded_libraries": axioms}))
     ctx.log(f"{name}: ok in {time.time() - t0:.0f}s, {len(axioms)} axioms in the loaded libraries")
+    ctx.notes.append("coqchk: the closure of Props/C01 is re-checked with `-bytecode-compiler yes` by the C01 harness "
+                     "(without it Base.CalendarProofs alone takes 916 s and the library's pass never finished: every "
+                     "thorough run lasted 780 s); VERIF_COQCHK=1 selects the library's pass instead")
 
 
 def run(ctx):
